@@ -156,7 +156,12 @@ impl WordLexer<'_, '_> {
 
         let param_start_index = self.index();
 
-        let c = self.peek_char().await?.unwrap();
+        let Some(c) = self.peek_char().await? else {
+            // End of input right after `${`
+            let cause = SyntaxError::EmptyParam.into();
+            let location = self.location().await?.clone();
+            return Err(Error { cause, location });
+        };
         let param = if is_name_char(c) {
             self.consume_char();
 
@@ -459,6 +464,21 @@ mod tests {
         assert_eq!(e.location.code.start_line_number.get(), 1);
         assert_eq!(*e.location.code.source, Source::Unknown);
         assert_eq!(e.location.range, 2..3);
+    }
+
+    #[test]
+    fn lexer_braced_param_end_of_input_after_opening_brace() {
+        let mut lexer = Lexer::with_code("${");
+        let mut lexer = WordLexer {
+            lexer: &mut lexer,
+            context: WordContext::Word,
+        };
+        lexer.peek_char().now_or_never().unwrap().unwrap();
+        lexer.consume_char();
+
+        let e = lexer.braced_param(0).now_or_never().unwrap().unwrap_err();
+        assert_eq!(e.cause, ErrorCause::Syntax(SyntaxError::EmptyParam));
+        assert_eq!(*e.location.code.value.borrow(), "${");
     }
 
     #[test]
